@@ -122,6 +122,17 @@ TypeOf(x, C, P) ==
          IN IF Ok(et) /\ (x.cond.e = "none" \/ Fits(TypeOf(x.cond, C1, P), BOOL))
                /\ x.t[1] = "list" /\ Fits(TypeOf(x.body, C1, P), x.t[2])
             THEN x.t ELSE ERR
+    \* domains with a private representation (P.adts[k+1] = [name, rep, ops]); values have type <<"adt", k>>;
+    \* per : Rep -> % and rep : % -> Rep exist inside the domain's own operations only (marker "%adt" in the context)
+    [] e = "acall" ->
+         IF "adts" \in DOMAIN P /\ x.adt + 1 \in 1..Len(P.adts)
+         THEN LET A == P.adts[x.adt + 1] i == FindOp(A.ops, x.op) IN
+              IF i # 0 /\ AllFit(TypesOf(x.args, C, P), A.ops[i].pts) THEN A.ops[i].rt ELSE ERR
+         ELSE ERR
+    [] e = "per" -> IF "%adt" \in DOMAIN C.G /\ C.G["%adt"].t = <<"adt", x.adt>> /\ Fits(TypeOf(x.v, C, P), P.adts[x.adt + 1].rep)
+                    THEN <<"adt", x.adt>> ELSE ERR
+    [] e = "rep" -> IF "%adt" \in DOMAIN C.G /\ C.G["%adt"].t = <<"adt", x.adt>> /\ TypeOf(x.v, C, P) = <<"adt", x.adt>>
+                    THEN P.adts[x.adt + 1].rep ELSE ERR
     [] e = "tuple" -> LET ts == TypesOf(x.args, C, P) IN
                       IF Len(ts) >= 2 /\ (\A i \in 1..Len(ts) : Ok(ts[i]) /\ ts[i] # ANY /\ ts[i][1] # "tup") THEN <<"tup", ts>> ELSE ERR
     [] e = "masg" -> LET vt == TypeOf(x.v, C, P) IN
@@ -261,8 +272,18 @@ DomsOk(P) ==
         /\ \A k \in 1..Len(P.cats[D.cat].ops) :
               FindOp(D.ops, P.cats[D.cat].ops[k].name) # 0 \/ FindOp(P.cats[D.cat].defaults, P.cats[D.cat].ops[k].name) # 0
 
+AdtOpOk(o, k, P) ==
+  LET C == [G |-> [n \in {o.ps[j] : j \in 1..Len(o.ps)} \cup {"%adt"} |->
+                     IF n = "%adt" THEN [t |-> <<"adt", k>>, asg |-> FALSE]
+                     ELSE [t |-> o.pts[CHOOSE j \in 1..Len(o.ps) : o.ps[j] = n], asg |-> FALSE]],
+            ret |-> ERR, loop |-> FALSE, yl |-> ERR, cat |-> 0, pcat |-> 0]
+  IN Len(o.ps) = Len(o.pts) /\ Fits(TypeOf(o.body, C, P), o.rt)
+AdtsOk(P) == ("adts" \notin DOMAIN P) \/
+  \A a \in 1..Len(P.adts) : \A j \in 1..Len(P.adts[a].ops) :
+     AdtOpOk(P.adts[a].ops[j], a - 1, P) /\ (\A j2 \in 1..Len(P.adts[a].ops) : P.adts[a].ops[j2].name = P.adts[a].ops[j].name => j2 = j)
+
 (* the names of the functions are bound as constants (not assignable) from the start *)
-WellTyped(P) == DomsOk(P) /\ FormsOk(1, [n \in {P.funs[i].oname : i \in 1..Len(P.funs)} |->
+WellTyped(P) == DomsOk(P) /\ AdtsOk(P) /\ FormsOk(1, [n \in {P.funs[i].oname : i \in 1..Len(P.funs)} |->
                                [t |-> <<"const">>, asg |-> FALSE]], P)
 
 VARIABLE pid
